@@ -311,12 +311,13 @@ pub fn replicate_request(
                     reclaim_space,
                     db_names,
                 } => {
-                    let db_name = db_name
-                        .clone()
-                        .expect("db_name should be set for snapshot replication");
-                    log::debug!("Will replicate a snapshot to the database {}", db_name);
+                    log::debug!("Will replicate a snapshot to the database {:?}", db_name);
                     let db_names = if db_names.is_empty() {
-                        vec![db_name.to_string()]
+                        // Without explicit names the handler already required a selected database
+                        match db_name.clone() {
+                            Some(db_name) => vec![db_name],
+                            None => vec![],
+                        }
                     } else {
                         db_names
                     };
